@@ -18,6 +18,11 @@ Proof.
   now subst.
 Qed.
 
+Lemma some_triple_eq {A B C} (a a' : A) (b b' : B) (c c' : C) :
+  Some (a, b, c) = Some (a', b', c') -> a = a' /\ b = b' /\ c = c'.
+Proof. intros [= -> -> ->]. auto. Qed.
+Ltac st_inv := let E := fresh "E" in intros E; apply some_triple_eq in E as (<-&<-&<-).
+
 (* ---- sequencing ---------------------------------------------------------- *)
 Lemma andthen_inv (m k : M) s s' l r :
   (m ;; k) s = Some (s', l, r) ->
@@ -27,11 +32,11 @@ Lemma andthen_inv (m k : M) s s' l r :
     | RExn x => s' = s1 /\ l = l1 /\ r = RExn x
     end.
 Proof.
-  unfold andthen. destruct (m s) as [[[s1 l1] r1]|]; [|discriminate].
+  unfold andthen. destruct (m s) as [[[s1 l1] r1]|] eqn:Hm; [|discriminate].
   destruct r1 as [|x].
-  - destruct (k s1) as [[[s2 l2] r2]|]; [|discriminate]. intros [= <- <- <-].
-    exists s1, l1, RNorm. split; auto. exists l2. auto.
-  - intros [= <- <- <-]. exists s1, l1, (RExn x). auto.
+  - destruct (k s1) as [[[s2 l2] r2]|] eqn:Hk; [|discriminate]. intros [= <- <- <-].
+    exists s1, l1, RNorm. split; [reflexivity|]. exists l2. split; [exact Hk|reflexivity].
+  - intros [= <- <- <-]. exists s1, l1, (RExn x). repeat split; reflexivity.
 Qed.
 
 Lemma andthen_norm (m k : M) s s1 l1 :
@@ -198,7 +203,7 @@ Proof.
   apply andthen_inv in H as (s1&l1&r1&H1&H2). destruct r1 as [|x].
   - destruct H2 as (l2&H2&->). apply nok10_app in N as [N1 N2].
     pose proof (Gm _ _ _ _ H1 I C N1) as (I1&_&_&E&_&C1&_).
-    eapply Ck; eauto. congruence.
+    eapply Ck; eauto; congruence.
   - destruct H2 as (->&->&->). eapply Cm; eauto.
 Qed.
 
@@ -265,19 +270,302 @@ Section BusFacts.
     - injection H as <- <- <-. reflexivity.
   Qed.
 
-  (* popping the head of the queue of an enabled world *)
-  Lemma good_pop w rest : good (upd (fun s => set_worlds (aset w (true, rest) (s_worlds s)) s)).
+  Lemma post_pop w e rest s :
+    alookup w (s_worlds s) = Some (true, e :: rest) -> inv s -> cur_ok s ->
+    post s (set_worlds (aset w (true, rest) (s_worlds s)) s) RNorm.
   Proof.
-    intros s s' l r [= <- <- <-] I C _. unfold post. cbn.
-    destruct (alookup w (s_worlds s)) as [W|] eqn:L.
-    - repeat split; auto; try (eapply inv_update; eauto).
-      intros _. apply cur_ok_update; eauto.
-    - (* the world does not exist: aset appends; the invariant on serials is
-         not needed for what follows, but keep the statement uniform *)
-      repeat split; auto.
-      + intros h x Hx. destruct I as [Ic _]. destruct (Ic h x Hx) as [W0 H0].
-        cbn. rewrite alookup_aset. destruct (x =? w); eauto.
-      + (* worlds_lt may fail here: rule the case out *)
-        exfalso. admit_case.
-  Abort.
+    intros H I C. unfold post. cbn. repeat split; auto; try (eapply inv_update; eauto).
+    intros _. apply cur_ok_update; eauto.
+  Qed.
+
+  Lemma good_release w fuel : good (release react w fuel).
+  Proof.
+    induction fuel as [|x fuel IH]; intros s s' l r H I C N; cbn [release] in H;
+      destruct (alookup w (s_worlds s)) as [[[|] [|e rest]]|] eqn:L;
+      try (eapply good_ret; eauto; fail); try discriminate.
+    apply andthen_inv in H as (s1&l1&r1&H1&H2). injection H1 as <- <- <-.
+    destruct H2 as (l2&H2&->). cbn [app] in N.
+    pose proof (post_pop _ _ _ _ L I C) as P1.
+    eapply post_trans; [exact P1|].
+    assert (G : good (dispatch react w e ;; release react w fuel))
+      by (apply good_andthen; [apply good_dispatch|exact IH]).
+    eapply G; eauto; [apply P1|apply P1; reflexivity].
+  Qed.
+
+  Lemma calm_release w fuel : calm (release react w fuel).
+  Proof.
+    induction fuel as [|x fuel IH]; intros s s' l r H I C N Hi; cbn [release] in H;
+      destruct (alookup w (s_worlds s)) as [[[|] [|e rest]]|] eqn:L;
+      try (injection H as <- <- <-; reflexivity); try discriminate.
+    apply andthen_inv in H as (s1&l1&r1&H1&H2). injection H1 as <- <- <-.
+    destruct H2 as (l2&H2&->). cbn [app] in N.
+    pose proof (post_pop _ _ _ _ L I C) as P1.
+    assert (G : calm (dispatch react w e ;; release react w fuel))
+      by (apply calm_andthen; [apply good_dispatch|apply calm_dispatch|exact IH]).
+    eapply G; eauto; [apply P1|apply P1; reflexivity].
+  Qed.
+
+  (* enabling the loop's current world (the only world the loop enables) *)
+  Lemma good_enable_cur w s s' l r :
+    enable react w s = Some (s', l, r) -> inv s -> w = s_curw s ->
+    (exists W, alookup w (s_worlds s) = Some W) -> nok10 l = true ->
+    inv s' /\ s_curw s' = s_curw s /\ s_curh s' = s_curh s /\ s_inh s' = s_inh s /\
+    (forall h x, alookup h (s_cache s) = Some x -> alookup h (s_cache s') = Some x) /\
+    (is_sw r = false -> cur_ok s') /\ tag_ok r s' /\ (s_inh s = true -> is_sw r = false).
+  Proof.
+    intros H I Ew [W L] N. unfold enable in H. rewrite L in H.
+    apply andthen_inv in H as (s1&l1&r1&H1&H2). injection H1 as <- <- <-.
+    destruct H2 as (l2&H2&->). cbn [app] in N.
+    set (s1 := set_worlds (aset w (true, w_q W) (s_worlds s)) s) in *.
+    assert (I1 : inv s1) by (eapply inv_update; eauto).
+    assert (C1 : cur_ok s1).
+    { unfold cur_ok, s1. cbn. rewrite <- Ew, alookup_aset_eq. eauto. }
+    pose proof (good_release w (w_q W) _ _ _ _ H2 I1 C1 N) as (A1&A2&A3&A4&A5&A6&A7).
+    split; [exact A1|]. split; [exact A2|]. split; [exact A3|]. split; [exact A4|].
+    split; [exact A5|]. split; [exact A6|]. split; [exact A7|].
+    intros Hi. pose proof (calm_release w (w_q W)) as Cr. unfold calm in Cr. eapply Cr; eauto.
+  Qed.
 End BusFacts.
+
+(* ---- loop.py ------------------------------------------------------------- *)
+Section LoopFacts.
+  Variable react : ekind -> action -> M.
+  Hypothesis Hgood : forall k a, good (react k a).
+  Hypothesis Hcalm : forall k a, calm (react k a).
+
+  Lemma good_switch_fn h cc cn : good (switch_fn react h cc cn).
+  Proof.
+    intros s s' l r H I C N. unfold switch_fn in H.
+    destruct (handle_call h s) as [[s1 to] l1] eqn:H1.
+    destruct (handle_call_inv _ _ _ _ _ H1 I) as (I1&C1&[Wto Hto]&Mc&Mw&Fw&Fh&Fi&Fr).
+    assert (Cu1 : cur_ok s1).
+    { destruct C as [q C]. exists q. rewrite Fw. apply Mw. exact C. }
+    assert (P01 : post s s1 RNorm).
+    { unfold post. repeat split; auto; apply I1. }
+    apply andthen_inv in H as (s1'&l1'&r1&E1&H2). injection E1 as <- <- <-.
+    destruct H2 as (l2&H2&->). apply nok10_app in N as [_ N].
+    apply andthen_inv in H2 as (s2&l2'&r2&D2&H3).
+    pose proof (good_dispatch react Hgood _ _ _ _ _ _ D2 I1 Cu1) as G2.
+    destruct r2 as [|x].
+    2:{ destruct H3 as (->&->&->). eapply post_trans; [exact P01|]. apply G2. exact N. }
+    destruct H3 as (l3&H3&->). apply nok10_app in N as [N2 N3].
+    specialize (G2 N2). destruct G2 as (I2&Fw2&Fh2&Fi2&Mc2&Cu2&_).
+    (* the three state updates and the final dispatch to the muted target *)
+    apply andthen_inv in H3 as (s3&l3'&r3&E3&H4). injection E3 as <- <- <-.
+    destruct H4 as (l4&H4&->).
+    apply andthen_inv in H4 as (s4&l4'&r4&E4&H5). injection E4 as <- <- <-.
+    destruct H5 as (l5&H5&->).
+    apply andthen_inv in H5 as (s5&l5'&r5&D5&H6).
+    set (from := s_curw s) in *.
+    set (s4 := disable to (disable from s2)) in *.
+    assert (I4 : inv s4) by (unfold s4; auto using disable_inv).
+    assert (Cto2 : alookup h (s_cache s2) = Some to) by (apply Mc2; exact C1).
+    assert (Eto2 : exists W, alookup to (s_worlds s2) = Some W) by (apply I2 in Cto2; exact Cto2).
+    destruct Eto2 as [W2 Eto2].
+    assert (L4 : exists q, alookup to (s_worlds s4) = Some (false, q)).
+    { unfold s4. rewrite disable_lookup, disable_lookup, Eto2.
+      destruct (to =? from); rewrite Z.eqb_refl; eauto. }
+    destruct L4 as [q4 L4].
+    unfold dispatch in D5. rewrite L4 in D5. cbn [w_en w_q fst snd] in D5.
+    injection D5 as <- <- <-. destruct H6 as (l6&H6&->). injection H6 as <- <- <-.
+    pose proof (disable_fields to (disable from s2)) as (Dc&Dn&Dw&Dh&Di&Dr).
+    pose proof (disable_fields from s2) as (Dc'&Dn'&Dw'&Dh'&Di'&Dr').
+    fold s4 in Dc, Dn, Dw, Dh, Di, Dr.
+    unfold post. cbn [set_worlds s_curw s_curh s_inh s_cache is_sw tag_ok s_worlds].
+    unfold from in *.
+    repeat split; try (eapply inv_update; eauto; fail); try congruence.
+    - intros h0 w0 Hh. rewrite Dc, Dc'. apply Mc2. apply Mc. exact Hh.
+    - exists q4. now rewrite alookup_aset_eq.
+  Qed.
+
+  Definition plain (x : exn) : Prop :=
+    match x with XSW _ _ _ (Some _) => False | _ => True end.
+
+  Lemma good_raise x : plain x -> good (raise x).
+  Proof.
+    intros Px s s' l r [= <- <- <-] I C _. unfold post. repeat split; auto; try apply I.
+    destruct x as [| |h cc cn [t|]]; cbn; auto. destruct Px.
+  Qed.
+
+  Lemma good_quit_fn : good (quit_fn react).
+  Proof.
+    intros s s' l r H. unfold quit_fn in H. revert H.
+    apply (good_andthen (dispatch react (s_curw s) VQuit) (raise XQuit));
+      [apply good_dispatch; exact Hgood|apply good_raise; exact I].
+  Qed.
+
+  Lemma calm_quit_fn : calm (quit_fn react).
+  Proof.
+    intros s s' l r H. unfold quit_fn in H. revert H.
+    apply (calm_andthen (dispatch react (s_curw s) VQuit) (raise XQuit)).
+    - apply good_dispatch; exact Hgood.
+    - apply calm_dispatch; exact Hcalm.
+    - intros s0 s0' l0 r0 [= <- <- <-] _ _ _ _. reflexivity.
+  Qed.
+
+  Lemma good_perform_body a : good (perform_body react a).
+  Proof.
+    destruct a as [| |q|h cc cn ex|h cc cn|]; cbn [perform_body].
+    - apply good_ret.
+    - apply good_raise; exact I.
+    - apply good_quit_fn.
+    - apply good_switch_fn.
+    - apply good_raise; exact I.
+    - apply good_raise; exact I.
+  Qed.
+
+  Lemma good_perform o a : good (perform react o a).
+  Proof.
+    intros s s' l r H. unfold perform in H. revert H.
+    apply (good_andthen (emit [EAct o a (s_curw s) (s_curh s)]) (perform_body react a));
+      [apply good_emit|apply good_perform_body].
+  Qed.
+
+  Lemma calm_perform_callback k a s s' l r :
+    perform react (OCallback k (s_inh s)) a s = Some (s', l, r) ->
+    inv s -> cur_ok s -> nok10 l = true -> s_inh s = true -> is_sw r = false.
+  Proof.
+    intros H I0 C N Hi. unfold perform in H.
+    apply andthen_inv in H as (s1&l1&r1&E1&H2). injection E1 as <- <- <-.
+    destruct H2 as (l2&H2&->). cbn [app] in N. unfold nok10 in N. cbn [forallb] in N.
+    apply andb_prop in N as [N1 N2]. rewrite Hi in N1.
+    destruct a as [| |q|h cc cn ex|h cc cn|]; cbn [perform_body] in H2;
+      try (cbn in N1; discriminate);
+      try (injection H2 as <- <- <-; reflexivity).
+    eapply calm_quit_fn; eauto.
+  Qed.
+End LoopFacts.
+
+Lemma react_n_good_calm n : forall k a, good (react_n n k a) /\ calm (react_n n k a).
+Proof.
+  induction n as [|n IH]; intros k a.
+  - split; intros s s' l r H; discriminate.
+  - assert (G : forall k a, good (react_n n k a)) by (intros; apply IH).
+    assert (Cm : forall k a, calm (react_n n k a)) by (intros; apply IH).
+    split; intros s s' l r H; cbn [react_n] in H.
+    + eapply (good_perform (react_n n) G); eauto.
+    + eapply (calm_perform_callback (react_n n) G Cm); eauto.
+Qed.
+
+Lemma react_n_good n k a : good (react_n n k a).
+Proof. apply react_n_good_calm. Qed.
+Lemma react_n_calm n k a : calm (react_n n k a).
+Proof. apply react_n_good_calm. Qed.
+
+Lemma clears_inv h cc cn s : inv s -> inv (clears h cc cn s).
+Proof.
+  intros I. unfold clears. destruct cn, cc; try destruct (s_curh s =? none);
+    auto using handle_clear_inv.
+Qed.
+
+Lemma clears_fields h cc cn s :
+  s_worlds (clears h cc cn s) = s_worlds s /\ s_next (clears h cc cn s) = s_next s /\
+  s_curw (clears h cc cn s) = s_curw s /\ s_curh (clears h cc cn s) = s_curh s /\
+  s_inh (clears h cc cn s) = s_inh s /\ s_reacts (clears h cc cn s) = s_reacts s.
+Proof. unfold clears. destruct cn, cc; try destruct (s_curh s =? none); cbn; auto 10. Qed.
+
+(* SimpleLoop.switch, however it ends (no K10): the current world is the
+   instance the handle holds, it exists and dispatches; no SwitchWorld *)
+Lemma loop_switch_post n h cc cn s s' l r :
+  loop_switch (react_n n) h cc cn s = Some (s', l, r) -> inv s -> nok10 l = true ->
+  inv s' /\ cur_ok s' /\ s_curh s' = h /\ is_sw r = false /\
+  alookup h (s_cache s') = Some (s_curw s').
+Proof.
+  intros H I N. unfold loop_switch in H.
+  set (s2 := clears h cc cn (set_inh true s)) in *.
+  assert (I2 : inv s2) by (apply clears_inv; exact I).
+  destruct (handle_call h s2) as [[s3 w] l3] eqn:H3.
+  destruct (handle_call_inv _ _ _ _ _ H3 I2) as (I3&C3&[W3 HW3]&_&_&_&_&Fi3&_).
+  rewrite (handle_call_cached h (set_cur w h s3) w C3) in H.
+  apply andthen_inv in H as (s5&l5&r5&E5&H5). injection E5 as <- <- <-.
+  destruct H5 as (l6&H6&->). apply nok10_app in N as [_ N].
+  apply andthen_inv in H6 as (s6&l6'&r6&E6&H7).
+  assert (Hi : s_inh (set_cur w h s3) = true).
+  { cbn. rewrite Fi3. unfold s2. destruct (clears_fields h cc cn (set_inh true s)) as (_&_&_&_&A&_).
+    rewrite A. reflexivity. }
+  assert (I4 : inv (set_cur w h s3)) by exact I3.
+  assert (Nr : nok10 l6' = true).
+  { destruct r6; [destruct H7 as (l7&_&->); apply nok10_app in N; apply N
+                 |destruct H7 as (_&->&_); exact N]. }
+  destruct (good_enable_cur (react_n n) (react_n_good n) (react_n_calm n) w _ _ _ _ E6 I4
+              eq_refl (ex_intro _ W3 HW3) Nr) as (A1&A2&A3&A4&A5&A6&A7&A8).
+  specialize (A8 Hi).
+  destruct r6 as [|x].
+  - destruct H7 as (l7&H7&->). injection H7 as <- <- <-.
+    specialize (A6 eq_refl). cbn in A2, A3.
+    split; [exact A1|]. split; [exact A6|]. split; [exact A3|]. split; [reflexivity|].
+    cbn. rewrite A2. apply A5. exact C3.
+  - destruct H7 as (->&->&->). specialize (A6 A8). cbn in A2, A3.
+    split; [exact A1|]. split; [exact A6|]. split; [exact A3|]. split; [exact A8|].
+    rewrite A2. apply A5. exact C3.
+Qed.
+
+(* ---- pokes, processors ---------------------------------------------------- *)
+Definition is_ev_poke (e : entry) : bool :=
+  match e with EEv _ _ | EPoke _ _ _ => true | _ => false end.
+
+Lemma do_pokes_post ps : forall s s' l,
+  do_pokes ps s = (s', l) -> inv s -> cur_ok s ->
+  post s s' RNorm /\ s_reacts s' = s_reacts s /\ forallb is_ev_poke l = true.
+Proof.
+  induction ps as [|[k tok] ps IH]; intros s s' l; cbn [do_pokes].
+  - intros [= <- <-] I C. exact (conj (post_refl _ I C) (conj eq_refl eq_refl)).
+  - destruct (alookup k (s_cache s)) as [w|]; [|apply IH].
+    destruct (alookup w (s_worlds s)) as [[[|] q]|] eqn:L.
+    + destruct (do_pokes ps s) as [s2 l2] eqn:P. intros [= <- <-] I C.
+      destruct (IH _ _ _ P I C) as (A&B&D). exact (conj A (conj B D)).
+    + set (s1 := set_worlds _ s).
+      destruct (do_pokes ps s1) as [s2 l2] eqn:P. intros [= <- <-] I C.
+      assert (P1 : post s s1 RNorm).
+      { unfold post, s1. cbn. repeat split; auto; try (eapply inv_update; eauto).
+        intros _. apply cur_ok_update; auto. intros ->. destruct C as [q' C]. congruence. }
+      destruct (IH _ _ _ P) as (A&B&D); [apply P1|apply P1; reflexivity|].
+      exact (conj (post_trans _ _ _ _ P1 A) (conj B D)).
+    + destruct (do_pokes ps s) as [s2 l2] eqn:P. intros [= <- <-] I C.
+      destruct (IH _ _ _ P I C) as (A&B&D). exact (conj A (conj B D)).
+Qed.
+
+Definition nps_ok (nps : list nat) : Prop := forallb (fun n => (1 <=? n)%nat) nps = true.
+
+Lemma np_of_pos nps h : nps_ok nps -> (1 <= np_of nps h)%nat.
+Proof.
+  intros H. unfold np_of. destruct (h <? 0); [lia|].
+  unfold nps_ok in H. rewrite forallb_forall in H.
+  destruct (nth_in_or_default (Z.to_nat h) nps 1%nat) as [Hin|Hd].
+  - apply H in Hin. lia.
+  - rewrite Hd. lia.
+Qed.
+
+Lemma eff_pos_lt o pos np : (1 <= np)%nat -> (S (eff_pos o pos np) <= np)%nat.
+Proof.
+  intros H. unfold eff_pos.
+  assert (Nat.modulo pos np < np)%nat by (apply Nat.mod_upper_bound; lia).
+  destruct o; lia.
+Qed.
+
+(* the end of switch(): both worlds muted, on_switch_in queued on the target,
+   SwitchWorld raised; nothing is logged *)
+Lemma switch_tail react h cc cn from to s2 s' l r :
+  inv s2 -> alookup h (s_cache s2) = Some to ->
+  (upd (disable from) ;; upd (disable to) ;; dispatch react to (VIn from to) ;;
+   raise (XSW h cc cn (Some (from, to)))) s2 = Some (s', l, r) ->
+  exists q4, alookup to (s_worlds (disable to (disable from s2))) = Some (false, q4) /\
+    s' = set_worlds (aset to (false, q4 ++ [VIn from to])
+                          (s_worlds (disable to (disable from s2))))
+                    (disable to (disable from s2)) /\
+    l = [] /\ r = RExn (XSW h cc cn (Some (from, to))).
+Proof.
+  intros I2 Cto2 H. destruct (proj1 I2 _ _ Cto2) as [W2 Eto2].
+  apply andthen_inv in H as (s3&l3'&r3&E3&H4). injection E3 as <- <- <-.
+  destruct H4 as (l4&H4&->).
+  apply andthen_inv in H4 as (s4&l4'&r4&E4&H5). injection E4 as <- <- <-.
+  destruct H5 as (l5&H5&->).
+  apply andthen_inv in H5 as (s5&l5'&r5&D5&H6).
+  assert (L4 : exists q, alookup to (s_worlds (disable to (disable from s2))) = Some (false, q)).
+  { rewrite disable_lookup, disable_lookup, Eto2.
+    destruct (to =? from); rewrite Z.eqb_refl; eauto. }
+  destruct L4 as [q4 L4]. exists q4. split; [exact L4|].
+  unfold dispatch in D5. rewrite L4 in D5. cbn [w_en w_q fst snd] in D5.
+  injection D5 as <- <- <-. destruct H6 as (l6&H6&->). injection H6 as <- <- <-.
+  repeat split; reflexivity.
+Qed.
